@@ -145,13 +145,29 @@ RReturn ==
             /\ N' = Limit /\ used' = 0 /\ nextk' = nextk + 1
             /\ UNCHANGED <<phase, eofSeen>>
        [] o[1] = "corrupt" ->
-            /\ RecvDone("err", 0) /\ phase' = "done"
+            /\ RecvDone("err", 0) /\ phase' = "retry"
             /\ UNCHANGED <<seen, N, used, nextk, eofSeen>>
        [] OTHER ->      \* more input needed
             /\ (N = 0 \/ eofSeen)      \* budget exhausted, or the connection already said EOF
-            /\ RecvDone("err", 0) /\ phase' = "done"
+            /\ RecvDone("err", 0) /\ phase' = "retry"
             /\ UNCHANGED <<seen, N, used, nextk, eofSeen>>
   /\ UNCHANGED <<cfg, sk, sOff, wire, wf, cut, rd, rf, small, plan>>
+
+(* the context of the Receive ends while it waits for bytes: it reports the error *)
+RCtxEnd ==
+  /\ phase = "recv" /\ Outcome(seen)[1] = "need" /\ N > 0 /\ ~eofSeen /\ rf < MaxRF
+  /\ rf' = rf + 1
+  /\ RecvDone("err", 0) /\ phase' = "retry"
+  /\ plan' = RPlan("ctxend", 0)
+  /\ UNCHANGED <<cfg, sk, sOff, wire, wf, cut, rd, seen, N, used, eofSeen, nextk, small>>
+
+(* whatever made a Receive fail, the transport does not resynchronise on the *)
+(* middle of the stream: the next Receive fails again without reading        *)
+RRetry ==
+  /\ phase = "retry"
+  /\ obs' = Append(obs, [Ev("recv") EXCEPT !.res = "err", !.env = 0, !.used = 0])
+  /\ phase' = "done"
+  /\ UNCHANGED <<cfg, sk, sOff, wire, wf, cut, rd, seen, N, used, rf, eofSeen, nextk, small, plan>>
 
 Needs == phase = "recv" /\ Outcome(seen)[1] = "need" /\ N > 0 /\ ~eofSeen
 
@@ -211,13 +227,15 @@ Next == \/ WFull
         \/ (phase = "send" /\ sk > NE /\ \E c \in Marks \cup {Total(wire)} : StartRecv(c))
         \/ RReturn
         \/ (Needs /\ \E b \in NextMarks(rd, cut) : RChunk(b) \/ RChunkTimeout(b))
-        \/ RTimeout \/ REof \/ RChunkEof
+        \/ RTimeout \/ REof \/ RChunkEof \/ RCtxEnd \/ RRetry
 
 Spec == Init /\ [][Next]_vars
 Terminal == phase = "done"
 
 (* the environment's faults, as the property's fault-free clause sees them *)
-HardFault == (\E i \in 1 .. Len(plan.w) : plan.w[i].r = "hard") \/ plan.cut < Total(wire)
+HardFault == \/ \E i \in 1 .. Len(plan.w) : plan.w[i].r = "hard"
+             \/ \E i \in 1 .. Len(plan.r) : plan.r[i].r = "ctxend"
+             \/ plan.cut < Total(wire)
 PCfg == [lens |-> cfg.lens, U |-> U, L |-> cfg.L, faultfree |-> IF HardFault THEN "n" ELSE "y"]
 
 P_C12 == /\ C12_StreamIntegrity(PCfg, obs)
@@ -227,5 +245,5 @@ P_C16 == /\ C16_PerReceiveBudget(PCfg, obs) /\ C16_RejectHuge(PCfg, obs)
          /\ (Terminal => C16_AcceptSmall(PCfg, obs))
 (* the decoder never holds more than one budget of read-ahead *)
 I_Ahead == phase = "recv" => Total(seen) <= Limit + Limit
-TypeOK == phase \in {"send", "recv", "done"} /\ N >= 0 /\ rd <= Total(wire)
+TypeOK == phase \in {"send", "recv", "retry", "done"} /\ N >= 0 /\ rd <= Total(wire)
 =============================================================================
